@@ -494,6 +494,7 @@ class Report:
         self.bounded_only = set()
         self.baseline = set(load_baseline().get(pid, []))
         self.hard = set(load_baseline().get(pid + ".undecided", []))
+        self.deferred_funcs = set()
 
 
 def check_contract(rep: Report, repo, con, registry, known_open, budget_ms, kmax):
@@ -502,6 +503,7 @@ def check_contract(rep: Report, repo, con, registry, known_open, budget_ms, kmax
         rep.assumed_contracts.append(f"{con.qual} (VC generation takes several minutes: its obligations are generated and discharged in the "
                                      f"thorough tier only; in the quick tier its contract is used as stated and the bounded part decides)")
         rep.bounded_only.add(con.qual)
+        rep.deferred_funcs.add(con.qual)
         try:
             fi = repo.func(con.qual)
             rep.functions[fi.qualname] = fi.sha
@@ -652,6 +654,7 @@ def _cover_expr(G, rep):
 
 def _cover_ok(repo, con, rep):
     import z3
+    unknown = False
     for k in (2, 3):
         G = generate_cached(repo, con, k)
         for L, pc, probes, vi in G.cover:
@@ -662,10 +665,15 @@ def _cover_ok(repo, con, rep):
                 s.add(a)
             for f in pc:
                 s.add(f)
-            if s.check() == z3.sat:
+            r = s.check()
+            if r == z3.sat:
                 rep.cover["sat"] += 1
                 return True
-    return False
+            if r == z3.unknown:
+                unknown = True          # a time-out under load is not evidence of vacuity: only `unsat` on every path is
+    if unknown:
+        rep.cover["unknown"] = rep.cover.get("unknown", 0) + 1
+    return unknown
 
 
 def run(pid, tier, seed, extra=None):
@@ -747,10 +755,14 @@ def finish(rep: Report, cons):
     pid = rep.pid
     present = {o.oid for o in rep.obls}
     gone_funcs = {o.oid[:-2] for o in rep.obls if o.oid.endswith("/*")}
+    deferred = 0
     for oid in sorted(rep.baseline - present):
         if oid.split("/")[0] in gone_funcs:
             continue
         o = Obl(oid)
+        if oid.split("/")[0] in rep.deferred_funcs:
+            deferred += 1
+            continue          # generated and discharged in the thorough tier only (stated under assumed_contracts)
         o.status, o.reason = "undecided", "obligation of the baseline was not generated on this tree"
         rep.obls.append(o)
         rep.undecided.append(o)
@@ -773,6 +785,7 @@ def finish(rep: Report, cons):
         "functions_under_contract": rep.functions,
         "obligation_table": [o.as_json() for o in rep.obls],
         "undecided": [o.oid for o in rep.undecided],
+        "deferred_to_thorough_tier": deferred,
         "known_findings_open": rep.known_lines,
         "assumed_contracts": rep.assumed_contracts,
         "bounded_parts": rep.bounded,
